@@ -68,7 +68,14 @@ Proof. exact wrap_conflict_2. Qed.
 Theorem C12_method_signature_uses_method_record : x_opts_converter_method_ctx = s2r "m.ArgContextRegex"%string.
 Proof. reflexivity. Qed.
 
+(* outside package config no inheritable setting is read from a record other than the method's: the converter's
+   Common is only copied as a whole (into generated sub-methods, C12_converter_record), so the value the generator
+   acts on for a declared method is the one C12_precedence describes *)
+Theorem C12_generation_reads_method_record : x_converter_level_reads = [].
+Proof. reflexivity. Qed.
+
 Print Assumptions C12_precedence.
+Print Assumptions C12_generation_reads_method_record.
 Print Assumptions C12_method_signature_uses_method_record.
 Print Assumptions C12_converter_record.
 Print Assumptions C12_bool_values.
